@@ -372,6 +372,60 @@ static void case_cplx_to_tnx32(uint64_t m, int variant, unsigned ovh, int dexp, 
   case_end(1);
 }
 
+// the convenience functions keep last-parameter caches: every call of a random parameter sequence must still
+// satisfy the conversion contract of *its own* parameters (values up to the declared bound)
+static void case_simple_sequence(unsigned seq) {
+  if (!case_begin("reim_to_znx64_simple+cplx_to_tnx32_simple|parameter-sequence", "sequence=%u", seq)) return;
+  rng_t* r = crng();
+  static const uint64_t MS[] = {2, 8, 16, 64, 256};
+  static const int DE[] = {0, 10, -3};
+  static const unsigned BD[] = {40, 50, 52, 63};
+  for (int step = 0; step < 24; step++) {
+    const uint64_t m = MS[rng_u64(r) % (step < 12 ? 3 : 5)], n = 2 * m;
+    const int dexp = DE[rng_u64(r) % 2 + (rng_u64(r) % 8 == 0)];
+    const double d = ldexp(1.0, dexp);
+    double* x = malloc(n * 8);
+    double* ratio = malloc(n * 8);
+    if (rng_u64(r) & 1) {
+      const unsigned bound = BD[rng_u64(r) % 4];
+      int64_t* out = malloc(n * 8);
+      gen_ratios(r, n, bound > 52 ? 52 : (int)bound, ratio, (unsigned)step);
+      for (uint64_t i = 0; i < n; i++) x[i] = ratio[i] * d;
+      reim_to_znx64_simple((uint32_t)m, d, bound, out, x);
+      for (uint64_t i = 0; i < n; i++)
+        if (fabsq((q_t)out[i] - (q_t)x[i] / (q_t)d) > (q_t)0.5) {
+          viol("oracle", "reim_to_znx64_simple(m=%" PRIu64 ", d=2^%d, log2bound=%u) at step %d of a parameter sequence: x/d=%a -> %" PRId64, m, dexp, bound, step, ratio[i], out[i]);
+          break;
+        }
+      free(out);
+      cnt("conv:reim_to_znx64", n);
+    } else {
+      const unsigned ovh = (rng_u64(r) & 1) ? 18 : 30;
+      int32_t* out = malloc(n * 4);
+      gen_ratios(r, n, 18, ratio, (unsigned)step);
+      for (uint64_t i = 0; i < n; i++) x[i] = ratio[i] * d;
+      cplx_to_tnx32_simple((uint32_t)m, d, ovh, out, x);
+      for (uint64_t i = 0; i < n; i++) {
+        int32_t got = (i & 1) ? out[m + i / 2] : out[i / 2];
+        q_t diff = (q_t)got - (q_t)x[i] / (q_t)d * (q_t)4294967296.0;
+        diff -= (q_t)4294967296.0 * rintq(diff / (q_t)4294967296.0);
+        if (fabsq(diff) > (q_t)0.5) {
+          viol("oracle", "cplx_to_tnx32_simple(m=%" PRIu64 ", d=2^%d, log2overhead=%u) at step %d of a parameter sequence: x/d=%a -> %d", m, dexp, ovh, step, ratio[i], got);
+          break;
+        }
+      }
+      free(out);
+      cnt("conv:cplx_to_tnx32", n);
+    }
+    free(x);
+    free(ratio);
+    cnt("values_checked", n);
+    cnt("simple_sequence_calls", 1);
+  }
+  sample("24 calls with changing (m, divisor, bound/overhead), each checked against its own contract");
+  case_end(1);
+}
+
 void run_C14(void) {
   const int th = G.thorough;
   static const uint64_t MQ[] = {1, 2, 4, 8, 16, 32, 64, 256, 1024, 4096, 65536};
@@ -413,6 +467,7 @@ void run_C14(void) {
         }
     }
   }
+  for (unsigned q = 0; q < (th ? 4000u : 200u); q++) case_simple_sequence(q);
   // dense near-tie sweeps: every binade of each variant's domain
   for (int v = 0; v < 5; v++)
     for (int e = -2; e <= (v == 3 ? 48 : 50); e++)
